@@ -82,6 +82,8 @@ TRANSLATORS = [
     # (CacheGenLaws.v: equal to the new_* routines of Model/Builder.v / Persist.v)
     ("executor_tr.py", "", "ExecGen.v"),
     ("cache_tr.py", "", "CacheGen.v"),
+    # the operations of file_builder.py (build_file*, subbuild, queries, cache validation): OpsGenLaws.v
+    ("operations_tr.py", "", "OpsGen.v"),
 ]
 
 
